@@ -1,24 +1,41 @@
 #!/usr/bin/env python3
 """bin/gen_idl_tables.py C18
 
-Translator for the Idl Lean package: re-extracts, textually, from the star_frame_idl sources under
-$VERIF_REPO (default /repo)
+Translator for the Idl Lean package: re-extracts from the star_frame_idl sources under $VERIF_REPO
+(default /repo) the tables of VALUES the model is tied to, and rewrites
+lean/Idl/Idl/Generated/Rules.lean:
 
-  * the RULE_* constants of verifier/mod.rs and their SFIDLnnn ids,
-  * the documented meaning of each id (docs/IDL_VERIFIER_SCOPE.md, section "Rule IDs"),
-  * the variants of IdlTypeDef / IdlAccountSetDef / IdlSeed with, per variant, the number of fields
-    that hold type definitions / account-set definitions / references (ty.rs, account_set.rs, seeds.rs),
-  * per match arm of verify_type_def / verify_account_set_def, the number of recursive verify calls
-    (the "walk" table), and the two shape conditions as written,
+  ruleIds                the values of the rule-id string constants of verifier/mod.rs ("SFIDLnnn")
+  docRuleIds             the ids listed in docs/IDL_VERIFIER_SCOPE.md, section "Rule IDs"
+  typeDefVariants        enum IdlTypeDef: (variant, number of fields holding type definitions)
+  accountSetDefVariants  enum IdlAccountSetDef: (variant, number of fields holding sets/references)
+  seedVariants, modes    enum IdlSeed, enum VerificationMode
+  typeDefWalk            per variant: does the arm of `verify_type_def` that matches it descend
+  accountSetDefWalk      (same for `verify_account_set_def`)
 
-and rewrites lean/Idl/Idl/Generated/Rules.lean.  Props/C18.lean proves the model's own tables equal
-to these, so any change in the source tables breaks the proof stage until the model follows.
+No table records the source TEXT of a condition or a call count: those are neither necessary nor
+sufficient for the behaviour.  Conditions (Many bounds, Or emptiness, arities …) and "does the walk
+reach every field of every variant" are established behaviourally by the correspondence run
+(hx-idlver families `boundary` and `variant`, every run).
+
+The walk tables are a cheap early signal only.  The extraction tolerates merged or-pattern arms,
+match guards, methods on a private struct, let-else, try_for_each …; when the shape of the source is
+not understood the PREVIOUS table of that item is kept, a line
+    gen_idl_tables: FALLBACK <item>: <reason>
+is printed (bin/check records it in the evidence / trusted base) and the exit code stays 0.
+The only statically reported walk defect is an arm that matches a reference-holding variant and
+whose body contains no call at all.
 """
 import difflib, os, re, sys
 
 REPO = os.environ.get("VERIF_REPO", "/repo")
 VERIF = os.path.dirname(os.path.dirname(os.path.abspath(__file__)))
 OUT = os.path.join(VERIF, "lean", "Idl", "Idl", "Generated", "Rules.lean")
+ME = "gen_idl_tables"
+
+
+class Unknown(Exception):
+    """the source has a shape this extractor does not understand"""
 
 
 def read(rel):
@@ -30,36 +47,43 @@ def strip_comments(src):
     return re.sub(r"//[^\n]*", "", src)
 
 
-def block_after(src, header_re):
-    """Text between the braces that follow the first match of header_re (brace-balanced)."""
-    m = re.search(header_re, src)
-    if not m:
-        sys.exit(f"gen_idl_tables: pattern not found: {header_re}")
-    i = src.index("{", m.end() - 1)
+def block_at(src, i):
+    """Text between the braces opening at/after index i (brace-balanced), and the end index."""
+    i = src.index("{", i)
     depth, j = 0, i
-    while True:
+    while j < len(src):
         c = src[j]
         if c == "{":
             depth += 1
         elif c == "}":
             depth -= 1
             if depth == 0:
-                return src[i + 1:j]
+                return src[i + 1:j], j + 1
         j += 1
+    raise Unknown("unbalanced braces")
+
+
+def block_after(src, header_re):
+    m = re.search(header_re, src)
+    if not m:
+        raise Unknown(f"pattern not found: {header_re}")
+    return block_at(src, m.end() - 1)[0]
 
 
 def split_top(body):
     """Split on commas that are not nested in () {} <> []."""
     parts, depth, cur = [], 0, []
+    prev = ""
     for c in body:
         if c in "({<[":
             depth += 1
-        elif c in ")}>]":
+        elif c in ")}]" or (c == ">" and prev not in "=-"):
             depth -= 1
         if c == "," and depth == 0:
             parts.append("".join(cur)); cur = []
         else:
             cur.append(c)
+        prev = c
     parts.append("".join(cur))
     return [p.strip() for p in parts if p.strip()]
 
@@ -84,33 +108,108 @@ def enum_variants(src, enum_name, holders):
     return out
 
 
-def walk_table(src, fn_name, enum_name, call_names):
-    """Per match arm of `fn fn_name`: (variants matched, number of calls to any of call_names)."""
-    body = block_after(strip_comments(src), r"fn\s+" + fn_name + r"\b[^{]*\{")
-    body = block_after(body, r"match\s+\w+\s*\{")
-    tok = re.compile(r"(" + enum_name + r"::(\w+))|(=>)|\b(" + "|".join(call_names) + r")\s*\(")
-    arms, names, count, in_body = [], [], 0, False
-    for m in tok.finditer(body):
-        if m.group(1):
-            if in_body:
-                arms.append((names, count)); names, count, in_body = [], 0, False
-            names.append(m.group(2))
-        elif m.group(3):
-            in_body = True
-        elif m.group(4) and in_body:
-            count += 1
-    if names:
-        arms.append((names, count))
-    return [(n, c) for ns, c in arms for n in ns]
+KEYWORDS = {"if", "match", "while", "for", "loop", "return", "fn", "let", "in", "move", "ref", "mut", "as", "else"}
+
+
+def walk_table(src, fn_name, enum_name, variants):
+    """[(variant, descends: bool)] for the `match` over `enum_name` inside `fn fn_name`.
+
+    Raises Unknown when the source shape is not understood (caller keeps the previous table)."""
+    code = strip_comments(src)
+    m = re.search(r"fn\s+" + fn_name + r"\b", code)
+    if not m:
+        raise Unknown(f"no `fn {fn_name}` (renamed or inlined?)")
+    body, _ = block_at(code, m.end())
+    # the match whose arms are patterns of this enum: the first `match … {` block containing `Enum::`
+    mm = None
+    for cand in re.finditer(r"\bmatch\b[^{;]*\{", body):
+        blk, _ = block_at(body, cand.end() - 1)
+        if re.search(enum_name + r"::\w+", blk):
+            mm = blk
+            break
+    if mm is None:
+        raise Unknown(f"no `match` over {enum_name}:: patterns in `{fn_name}` (imported variants / if-let chain / helper?)")
+    # split the match block into arms at top nesting level: pattern `=>` body
+    arms, depth, i, start = [], 0, 0, 0
+    n = len(mm)
+    pos_arrow = None
+    while i < n:
+        c = mm[i]
+        if c in "({[":
+            depth += 1
+        elif c in ")}]":
+            depth -= 1
+        elif depth == 0 and mm.startswith("=>", i) and pos_arrow is None:
+            pos_arrow = i
+            i += 2
+            # body: either a block `{…}` (possibly followed by a comma) or an expression up to the top-level comma
+            j = i
+            while j < n and mm[j].isspace():
+                j += 1
+            if j < n and mm[j] == "{":
+                blk, end = block_at(mm, j)
+                # `match x { … }` as arm body starts with an identifier, not `{`; so this is a plain block
+                arms.append((mm[start:pos_arrow], blk))
+                i = end
+            else:
+                d2, k = 0, j
+                while k < n:
+                    ch = mm[k]
+                    if ch in "({[":
+                        d2 += 1
+                    elif ch in ")}]":
+                        d2 -= 1
+                    elif ch == "," and d2 == 0:
+                        break
+                    k += 1
+                arms.append((mm[start:pos_arrow], mm[j:k]))
+                i = k
+            while i < n and (mm[i].isspace() or mm[i] == ","):
+                i += 1
+            start, pos_arrow = i, None
+            continue
+        i += 1
+    if mm[start:].strip():
+        raise Unknown(f"trailing text after the last arm of the match in `{fn_name}`")
+    seen = {}
+    for pat, arm_body in arms:
+        pat_nog = re.split(r"\bif\b", pat, 1)[0]          # drop a match guard
+        names = re.findall(enum_name + r"::(\w+)", pat_nog)
+        if not names:
+            raise Unknown(f"arm `{' '.join(pat.split())[:60]}` of `{fn_name}` names no {enum_name} variant (wildcard / binding arm)")
+        verify_calls = len(re.findall(r"\bverify_\w+\s*\(", arm_body))
+        any_calls = [c for c in re.findall(r"\b([a-z_][a-z0-9_]*)\s*\(", arm_body) if c not in KEYWORDS]
+        for nm in names:
+            if nm in seen:
+                raise Unknown(f"variant {nm} matched by two arms of `{fn_name}`")
+            seen[nm] = (verify_calls, len(any_calls))
+    want = [v for v, _ in variants]
+    if sorted(seen) != sorted(want):
+        raise Unknown(f"arms of `{fn_name}` cover {sorted(seen)} but {enum_name} has {sorted(want)}")
+    out = []
+    for v, fields in variants:
+        vc, ac = seen[v]
+        if fields >= 1:
+            if vc >= 1:
+                out.append((v, True))
+            elif ac >= 1:
+                raise Unknown(f"arm for {v} in `{fn_name}` makes no verify_* call but calls something else (helper?)")
+            else:
+                out.append((v, False))          # reference-holding variant, arm body calls nothing: reported
+        else:
+            if vc >= 1 or ac >= 1:
+                raise Unknown(f"arm for leaf variant {v} in `{fn_name}` makes calls")
+            out.append((v, False))
+    return out
 
 
 def lean_str(s):
     return '"' + s.replace("\\", "\\\\").replace('"', '\\"') + '"'
 
 
-def lean_pairs_ss(name, doc, rows):
-    body = ",\n   ".join(f"({lean_str(a)}, {lean_str(b)})" for a, b in rows)
-    return f"/-- {doc} -/\ndef {name} : List (String × String) :=\n  [{body}]\n"
+def lean_list_s(name, doc, rows):
+    body = ", ".join(lean_str(a) for a in rows)
+    return f"/-- {doc} -/\ndef {name} : List String :=\n  [{body}]\n"
 
 
 def lean_pairs_sn(name, doc, rows):
@@ -118,57 +217,106 @@ def lean_pairs_sn(name, doc, rows):
     return f"/-- {doc} -/\ndef {name} : List (String × Nat) :=\n  [{body}]\n"
 
 
+def lean_pairs_sb(name, doc, rows):
+    body = ",\n   ".join(f"({lean_str(a)}, {'true' if b else 'false'})" for a, b in rows)
+    return f"/-- {doc} -/\ndef {name} : List (String × Bool) :=\n  [{body}]\n"
+
+
+def previous_item(old, name):
+    """The text of `def name … := [...]` (with its doc comment) in the previously generated file."""
+    m = re.search(r"(/--[^\n]*-/\n)?def " + name + r" :[^\n]*:=\n  \[.*?\]\n", old, flags=re.S)
+    return m.group(0) if m else None
+
+
 def main():
+    old = open(OUT, encoding="utf-8").read() if os.path.exists(OUT) else ""
+    fallbacks = []
+
+    def item(name, build, default=None):
+        """build() -> lean text; on Unknown keep the previous text (or `default()`), report FALLBACK."""
+        try:
+            return build()
+        except Unknown as e:
+            prev = previous_item(old, name)
+            if prev is None and default is not None:
+                prev = default()
+            if prev is None:
+                sys.exit(f"{ME}: cannot extract {name} and there is no previous table: {e}")
+            fallbacks.append(f"{ME}: FALLBACK {name}: {e}")
+            return prev
+
     ver = read("star_frame_idl/src/verifier/mod.rs")
-    # everything before the unit tests
     ver_code = ver.split("#[cfg(test)]")[0]
-    rules = re.findall(r'const\s+(RULE_\w+)\s*:\s*&str\s*=\s*"([^"]*)"\s*;', ver_code)
-    if not rules:
-        sys.exit("gen_idl_tables: no RULE_* constants found")
-    doc = read("docs/IDL_VERIFIER_SCOPE.md")
-    sec = doc.split("## Rule IDs", 1)[1] if "## Rule IDs" in doc else ""
-    doc_rules = [(a, re.sub(r"`", "", b).strip()) for a, b in re.findall(r"^- `(\w+)`\s+(.*)$", sec, flags=re.M)]
     ty = read("star_frame_idl/src/ty.rs")
     aset = read("star_frame_idl/src/account_set.rs")
     seeds = read("star_frame_idl/src/seeds.rs")
-    td_vars = enum_variants(ty, "IdlTypeDef", ["IdlTypeDef", "IdlTypeId", "IdlStructField", "IdlEnumVariant"])
-    as_vars = enum_variants(aset, "IdlAccountSetDef",
-                            ["IdlAccountSetDef", "IdlAccountSetId", "IdlSingleAccountSet", "IdlAccountSetStructField"])
-    seed_vars = enum_variants(seeds, "IdlSeed", ["IdlTypeDef", "IdlTypeId"])
-    td_walk = walk_table(ver_code, "verify_type_def", "IdlTypeDef", ["verify_type_def", "verify_type_id"])
-    as_walk = walk_table(ver_code, "verify_account_set_def", "IdlAccountSetDef",
-                         ["verify_account_set_def", "verify_account_set_id", "verify_single_account_set"])
-    code = strip_comments(ver_code)
-    many = re.search(r"if\s+let\s+Some\(max\)\s*=\s*max\s*\{\s*if\s+([^{]*?)\s*\{", code)
-    orc = re.search(r"IdlAccountSetDef::Or\((\w+)\)\s*=>\s*\{\s*if\s+([^{]*?)\s*\{", code)
-    many_cond = re.sub(r"\s+", " ", many.group(1)) if many else "?"
-    or_cond = re.sub(r"\s+", " ", orc.group(2)) if orc else "?"
-    modes = re.findall(r"^\s*(\w+),\s*$", block_after(code, r"pub\s+enum\s+VerificationMode\s*\{"), flags=re.M)
+
+    # ---- values: public AST (a parse failure here is a real "model out of date", not a fallback)
+    try:
+        td_vars = enum_variants(ty, "IdlTypeDef", ["IdlTypeDef", "IdlTypeId", "IdlStructField", "IdlEnumVariant"])
+        as_vars = enum_variants(aset, "IdlAccountSetDef",
+                                ["IdlAccountSetDef", "IdlAccountSetId", "IdlSingleAccountSet", "IdlAccountSetStructField"])
+        seed_vars = enum_variants(seeds, "IdlSeed", ["IdlTypeDef", "IdlTypeId"])
+        modes = re.findall(r"^\s*(\w+),\s*$", block_after(strip_comments(ver_code), r"pub\s+enum\s+VerificationMode\s*\{"), flags=re.M)
+    except Unknown as e:
+        sys.exit(f"{ME}: public IDL AST not readable: {e}")
+
+    def rule_ids():
+        code = strip_comments(ver_code)
+        ids = re.findall(r'\bconst\s+\w+\s*:\s*&(?:\'static\s+)?str\s*=\s*"([A-Z]+\d+)"\s*;', code)
+        if not ids:
+            # ids not held in `const NAME: &str` items any more: take the id-shaped literals of the code
+            ids = re.findall(r'"([A-Z]{3,}\d{3})"', code)
+        ids = sorted(set(ids))
+        if not ids:
+            raise Unknown("no rule-id string constants / literals found in verifier/mod.rs")
+        return lean_list_s("ruleIds", "the rule-id string constants of verifier/mod.rs (values, sorted)", ids)
+
+    def doc_rule_ids():
+        doc = read("docs/IDL_VERIFIER_SCOPE.md")
+        if "## Rule IDs" not in doc:
+            raise Unknown("docs/IDL_VERIFIER_SCOPE.md has no section `## Rule IDs`")
+        sec = doc.split("## Rule IDs", 1)[1].split("\n## ", 1)[0]
+        ids = sorted(set(re.findall(r"`([A-Z]{3,}\d{3})`", sec)))
+        if not ids:
+            raise Unknown("no rule ids in the `Rule IDs` section of docs/IDL_VERIFIER_SCOPE.md")
+        return lean_list_s("docRuleIds", "docs/IDL_VERIFIER_SCOPE.md, section \"Rule IDs\": the documented ids (sorted)", ids)
+
+    def default_walk(name, variants):
+        return lambda: lean_pairs_sb(name, "(no previous table: taken from the variant table)", [(v, n >= 1) for v, n in variants])
 
     out = ("-- GENERATED by bin/gen_idl_tables.py from the star_frame_idl sources; do not edit.\n"
            "namespace Idl.Generated\n\n")
-    out += lean_pairs_ss("ruleConsts", "`const RULE_*: &str = \"SFIDLnnn\"` of verifier/mod.rs, in source order", rules) + "\n"
-    out += lean_pairs_ss("docRules", "docs/IDL_VERIFIER_SCOPE.md, section \"Rule IDs\": id, documented meaning", doc_rules) + "\n"
+    out += item("ruleIds", rule_ids) + "\n"
+    out += item("docRuleIds", doc_rule_ids) + "\n"
     out += lean_pairs_sn("typeDefVariants", "`enum IdlTypeDef` (ty.rs): variant, number of fields holding type definitions", td_vars) + "\n"
     out += lean_pairs_sn("accountSetDefVariants", "`enum IdlAccountSetDef` (account_set.rs): variant, number of fields holding sets/references", as_vars) + "\n"
     out += lean_pairs_sn("seedVariants", "`enum IdlSeed` (seeds.rs): variant, number of fields holding type definitions", seed_vars) + "\n"
-    out += lean_pairs_sn("typeDefWalk", "`verify_type_def`: per matched variant, the number of recursive verify calls in its arm", td_walk) + "\n"
-    out += lean_pairs_sn("accountSetDefWalk", "`verify_account_set_def`: per matched variant, the number of verify calls in its arm", as_walk) + "\n"
-    out += f"/-- the `Many` rejection condition as written -/\ndef manyBoundsCond : String := {lean_str(many_cond)}\n\n"
-    out += f"/-- the `Or` rejection condition as written -/\ndef orCond : String := {lean_str(or_cond)}\n\n"
+    out += item("typeDefWalk",
+                lambda: lean_pairs_sb("typeDefWalk", "`verify_type_def`: per variant, whether the arm matching it descends (makes a verify call)",
+                                      walk_table(ver_code, "verify_type_def", "IdlTypeDef", td_vars)),
+                default_walk("typeDefWalk", td_vars)) + "\n"
+    out += item("accountSetDefWalk",
+                lambda: lean_pairs_sb("accountSetDefWalk", "`verify_account_set_def`: per variant, whether the arm matching it descends",
+                                      walk_table(ver_code, "verify_account_set_def", "IdlAccountSetDef", as_vars)),
+                default_walk("accountSetDefWalk", as_vars)) + "\n"
     out += "/-- `enum VerificationMode` -/\ndef modes : List String := [" + ", ".join(lean_str(m) for m in modes) + "]\n\n"
     out += "end Idl.Generated\n"
 
-    old = open(OUT, encoding="utf-8").read() if os.path.exists(OUT) else ""
     if old == out:
-        print(f"gen_idl_tables: {os.path.relpath(OUT, VERIF)} unchanged ({len(rules)} rules, {len(td_vars)} IdlTypeDef variants, "
+        print(f"{ME}: {os.path.relpath(OUT, VERIF)} unchanged ({len(td_vars)} IdlTypeDef variants, "
               f"{len(as_vars)} IdlAccountSetDef variants, repo={REPO})")
     else:
         os.makedirs(os.path.dirname(OUT), exist_ok=True)
         open(OUT, "w", encoding="utf-8").write(out)
-        print(f"gen_idl_tables: {os.path.relpath(OUT, VERIF)} CHANGED (repo={REPO}):")
-        for l in difflib.unified_diff(old.splitlines(), out.splitlines(), "previous", "regenerated", lineterm="", n=0):
-            print("  " + l)
+        print(f"{ME}: {os.path.relpath(OUT, VERIF)} CHANGED (repo={REPO}):")
+        try:
+            for l in difflib.unified_diff(old.splitlines(), out.splitlines(), "previous", "regenerated", lineterm="", n=0):
+                print("  " + l)
+        except BrokenPipeError:
+            pass
+    for f in fallbacks:
+        print(f)
 
 
 if __name__ == "__main__":
